@@ -94,7 +94,7 @@ fn redundancy(rep: &mut Report, rng: &mut Rng, k: u64) {
 }
 
 pub fn run(ctx: &Ctx, rep: &mut Report) {
-    let rounds = ctx.n(10, 400);
+    let rounds = ctx.n(30, 400);
     let n_cfg = 880 * rounds;
     let n_red = ctx.n(900, 48_000);
     let n_fill = ctx.n(64, 3000);
